@@ -6,7 +6,7 @@
 \* own semantics are not modelled here (and a defect inside an atom cannot fail C05).
 \*   atom event: [t |-> "atom", id, ctx (document x namespace map), a (atom id), set (Seq of node ids)]
 \*   law event:  [t |-> "law", id, ctx, a, b, c, x, univ, defaultns, ab, isab, isa, isb, nota, notab,
-\*                whereab, matchesab, xisa, abc]   (each a Seq of node ids, or <<-1>> when the call raised)
+\*                whereab, matchesab, xisa, abc, fg1, fg2, fg3 (forgiving lists with a dropped alternative)]   (each a Seq of node ids, or <<-1>> when the call raised)
 EXTENDS Naturals, Sequences, FiniteSets, TLC, TLCExt, Json, IOUtils, SequencesExt
 VARIABLES l, row
 
@@ -25,7 +25,8 @@ Laws(e) ==
        <<"where",        S(e.whereab) = S(e.isab)>>,
        <<"matches",      S(e.matchesab) = S(e.isab)>>,
        <<"monotone",     S(e.ab) \subseteq S(e.abc)>>,
-       <<"no-error",     \A f \in {e.ab, e.isab, e.isa, e.isb, e.nota, e.notab, e.whereab, e.matchesab, e.xisa, e.abc} : f # <<-1>> >> >>
+       <<"forgiving",    S(e.fg1) = S(e.isb) /\ S(e.fg2) = S(e.isb) /\ S(e.fg3) = S(e.isab)>>,
+       <<"no-error",     \A f \in {e.ab, e.isab, e.isa, e.isb, e.nota, e.notab, e.whereab, e.matchesab, e.xisa, e.abc, e.fg1, e.fg2, e.fg3} : f # <<-1>> >> >>
 Failed(e) == {n \in 1..Len(Laws(e)) : ~Laws(e)[n][2]}
 
 Init == l = 0 /\ row = [k \in {} |-> {}]
